@@ -21,6 +21,14 @@ class FakeLoader(object):
         self.dataset = dataset
         self.W = int(num_workers)
         self.kw = kw
+        # the two batching modes of the real loader that keep one item per step
+        self.auto_collate = kw.get("batch_size", 1) is not None
+        self.collate = kw.get("collate_fn") or torch.utils.data.default_collate
+
+    def _emit(self, item):
+        if self.auto_collate:
+            return self.collate([item])
+        return torch.utils.data._utils.collate.default_convert(item)
 
     def __len__(self):
         return len(self.dataset)
@@ -30,7 +38,7 @@ class FakeLoader(object):
         W = self.W
         if W <= 0:
             for i in range(n):
-                yield torch.utils.data.default_collate([self.dataset[i]])
+                yield self._emit(self.dataset[i])
             return
         # drawn from the main process's generator, as the real loader does when iteration starts
         base_seed = int(torch.empty((), dtype=torch.int64).random_().item())
@@ -71,7 +79,7 @@ class FakeLoader(object):
             if self.tracer is not None:
                 self.tracer.log("E", "worker", pick, self.tracer.count)
             try:
-                item = torch.utils.data.default_collate([wk["ds"][i]])
+                item = self._emit(wk["ds"][i])
             finally:
                 wk["rng"] = (torch.get_rng_state(), np.random.get_state(), random.getstate())
                 _restore(main_state)
@@ -85,7 +93,24 @@ def _restore(st):
     random.setstate(st[2])
 
 
+_SUPPORTED = {"batch_size", "collate_fn", "shuffle", "drop_last", "pin_memory", "persistent_workers", "prefetch_factor"}
+
+
 def install(schedule, tracer):
+    """Replace torch.utils.data.DataLoader by a factory: the simulated pool for the call patterns it models (one item
+    per step, in order), the genuine loader for anything else (so that an implementation using other features of the
+    loader is never judged through a stub that does not model them)."""
     FakeLoader.schedule = [int(x) for x in schedule]
     FakeLoader.tracer = tracer
-    torch.utils.data.DataLoader = FakeLoader
+    real = torch.utils.data.DataLoader
+
+    def loader(dataset, *args, **kw):
+        ok = (not args and set(kw) <= (_SUPPORTED | {"num_workers"}) and kw.get("batch_size", 1) in (1, None)
+              and not kw.get("shuffle") and kw.get("sampler") is None)
+        if not ok:
+            if tracer is not None:
+                tracer.log("E", "real_loader_fallback", "-", tracer.count)
+            return real(dataset, *args, **kw)
+        return FakeLoader(dataset, **kw)
+
+    torch.utils.data.DataLoader = loader
